@@ -53,6 +53,9 @@ const struct sh_counters *sh_cnt(int tag);
 /* the connection's kernel socket (connected stream / seqpacket socket created
  * inside XCM for this tag, most recent), or -1 */
 int sh_data_fd(int tag);
+/* 1 if a TCP socket of the tag is in a connect() whose completion the library
+ * has not yet observed (SO_ERROR not read) */
+int sh_connect_unobserved(int tag);
 /* listening socket(s) of a tag */
 int sh_listen_fd(int tag, int idx);
 /* move ownership of all fds of tag `from` to tag `to` */
@@ -60,6 +63,9 @@ void sh_retag(int from, int to);
 
 /* SO_SNDBUF/SO_RCVBUF applied to TCP sockets the library creates (0 = leave) */
 void sh_set_bufsizes(int sndbuf, int rcvbuf);
+/* value (ms) handed to the kernel instead of the library's TCP_USER_TIMEOUT
+ * (0 = pass through); the library's own value is still logged. Not reset. */
+void sh_override_user_timeout(int ms);
 
 /* ---- one-shot faults (C06): the n-th (1-based) send()/recv() from now on a
  * descriptor of `tag` fails with `err` without touching the kernel */
